@@ -3,6 +3,8 @@ package common
 import (
 	"encoding/json"
 	"fmt"
+	"io"
+	"strings"
 
 	r "github.com/DemoHn/Zn/pkg/runtime"
 	"github.com/DemoHn/Zn/pkg/value"
@@ -17,13 +19,81 @@ func HashMapToJSONString(hm *value.HashMap) (*value.String, error) {
 }
 
 func JSONStringToElement(jsonStr *value.String) (r.Element, error) {
-	plainMap := map[string]any{}
-	vdata := []byte(jsonStr.GetValue())
-	if err := json.Unmarshal(vdata, &plainMap); err != nil {
+	decoder := json.NewDecoder(strings.NewReader(jsonStr.GetValue()))
+	elem, err := decodeElement(decoder)
+	if err == nil {
+		// there should be ONE json value only
+		if _, errT := decoder.Token(); errT != io.EOF {
+			err = fmt.Errorf("invalid character after top-level value")
+		}
+	}
+	if err != nil {
 		return nil, value.ThrowException("解析JSON失败 - " + err.Error())
 	}
 
-	return buildElementFromPlainValue(plainMap), nil
+	switch elem.(type) {
+	case *value.HashMap:
+		return elem, nil
+	case *value.Null:
+		return value.NewEmptyHashMap(), nil
+	default:
+		return nil, value.ThrowException("解析JSON失败 - json: top-level value must be an object")
+	}
+}
+
+// decodeElement - decode ONE json value from token stream.
+// Different from json.Unmarshal() into a plain map, the keys of an object keep their
+// order in the document
+func decodeElement(decoder *json.Decoder) (r.Element, error) {
+	token, err := decoder.Token()
+	if err != nil {
+		return nil, err
+	}
+	delim, isDelim := token.(json.Delim)
+	if !isDelim {
+		// nil, bool, float64, string
+		return buildElementFromPlainValue(token), nil
+	}
+
+	switch delim {
+	case '{':
+		target := value.NewEmptyHashMap()
+		for decoder.More() {
+			keyToken, err := decoder.Token()
+			if err != nil {
+				return nil, err
+			}
+			key, ok := keyToken.(string)
+			if !ok {
+				return nil, fmt.Errorf("invalid object key")
+			}
+			item, err := decodeElement(decoder)
+			if err != nil {
+				return nil, err
+			}
+			target.AppendKVPair(value.KVPair{Key: key, Value: item})
+		}
+		// consume '}'
+		if _, err := decoder.Token(); err != nil {
+			return nil, err
+		}
+		return target, nil
+	case '[':
+		varr := value.NewEmptyArray()
+		for decoder.More() {
+			item, err := decodeElement(decoder)
+			if err != nil {
+				return nil, err
+			}
+			varr.AppendValue(item)
+		}
+		// consume ']'
+		if _, err := decoder.Token(); err != nil {
+			return nil, err
+		}
+		return varr, nil
+	}
+	return nil, fmt.Errorf("invalid character '%s'", delim.String())
 }
 
 func ElementToJSONString(elem r.Element) (*value.String, error) {
